@@ -53,7 +53,7 @@ static Plan c17_gen(uint64_t seed, int tier, uint64_t index) {
     int n = 2 + (int) r.below(10);
     for (int i = 0; i < n; i++) {
         switch (r.below(9)) {
-        case 0: case 1: case 2: case 3: p.ops.push_back(Op("send", (int64_t) r.below(2), LENS[r.below(8)], (int64_t) r.below(2))); break;
+        case 0: case 1: case 2: case 3: p.ops.push_back(Op("send", (int64_t) r.below(2), LENS[r.below(8)], (int64_t) r.below(2) | (r.chance(1, 8) ? 8 : 0))); break;
         case 4: p.ops.push_back(Op("pump")); break;
         case 5: {   // provoke an alert: corrupt an honest record
             int dir = (int) r.below(2);
@@ -83,6 +83,18 @@ static std::vector<Plan> c17_fixed(int tier) {
             Plan p; p.seed = 171000 + (uint64_t) (si * 2 + dir);
             p.cfg["eng"] = 0; p.cfg["ver"] = si < 3 ? 2 : 1; p.cfg["suite"] = S[si]; p.cfg["sid_kind"] = KK_EC256;
             p.ops.push_back(Op("hs")); p.ops.push_back(Op("burst", dir, 65536 + 300)); p.ops.push_back(Op("send", 1 - dir, 30)); p.ops.push_back(Op("pump"));
+            v.push_back(p);
+        } }
+    }
+    // empty application records between ordinary ones (TLS: legal, some suites refuse them), per record-protection family and direction
+    {
+        static const struct { int ver; uint16_t suite; } ER[] = { { 1, TLS_RSA_WITH_AES_128_GCM_SHA256 }, { 1, TLS_ECDHE_RSA_WITH_AES_256_GCM_SHA384 }, { 1, TLS_RSA_WITH_AES_128_CBC_SHA256 }, { 0, TLS_RSA_WITH_AES_128_CBC_SHA },
+                                                            { 2, TLS_AES_128_GCM_SHA256 }, { 2, TLS_CHACHA20_POLY1305_SHA256 } };
+        for (int i = 0; i < 6; i++) { for (int dir = 0; dir < 2; dir++) {
+            Plan p; p.seed = 173000 + (uint64_t) (i * 2 + dir);
+            p.cfg["eng"] = 0; p.cfg["ver"] = ER[i].ver; p.cfg["suite"] = ER[i].suite; if (ER[i].ver == 2) { p.cfg["sid_kind"] = KK_EC256; }
+            p.ops.push_back(Op("hs")); p.ops.push_back(Op("send", dir, 40)); p.ops.push_back(Op("send", dir, 0, 8)); p.ops.push_back(Op("send", dir, 50)); p.ops.push_back(Op("pump"));
+            p.ops.push_back(Op("send", dir, 0, 8)); p.ops.push_back(Op("send", dir, 0, 8)); p.ops.push_back(Op("send", 1 - dir, 0, 8)); p.ops.push_back(Op("send", dir, 60)); p.ops.push_back(Op("send", 1 - dir, 61)); p.ops.push_back(Op("pump"));
             v.push_back(p);
         } }
     }
